@@ -17,8 +17,19 @@
 //! everything they need); later arrivals are `noop`. The `ReconnectState` observer used by `probe state` is kept:
 //! it is what an application holds to watch the connection, not a service handle.
 //! `manual ondrop …` is supported (`requester`).
+//!
+//! Error chains: the wrapped service is `Chained` (the scripted `Inner` with its error mapped to `CErr`), whose
+//! error has a scripted `source()` chain: inner outcome `errK>J>I` is an error of kind K whose `source()` is an
+//! error of kind J whose `source()` is an error of kind I (any depth; plain `errK` has no source). Every error of
+//! the chain displays as `ierr<its own kind>:<serial>`, so the `pred=` predicate classifies whatever error it is
+//! handed by that error's OWN kind. `inner_done` / the rendered result name the head (the error the service
+//! returned); the causes are reported in a `#chain <c> <k> <J>I…>` meta line. The model classifies the head only.
 use crate::world::*;
-use std::sync::Arc;
+use std::collections::{HashMap, VecDeque};
+use std::future::Future;
+use std::pin::Pin;
+use std::sync::{Arc, Mutex};
+use std::task::{Context, Poll};
 use std::time::Duration;
 use tower::{Layer, Service};
 use tower_resilience_reconnect::{
@@ -28,9 +39,95 @@ use tower_resilience_reconnect::{
 
 pub struct Adapter {
     /// `None` once `manual dropsvc` has dropped every handle
-    svc: Option<ReconnectService<Inner>>,
+    svc: Option<ReconnectService<Chained>>,
     layer: Option<ReconnectLayer>,
     state: ReconnectState,
+    /// scripted cause chains of the requests' inner calls (not a service handle: a script, like `Req::plan`)
+    chains: Chains,
+}
+
+/// The scripted inner error with a scripted `source()` chain.
+#[derive(Debug)]
+pub struct CErr {
+    pub kind: u8,
+    pub v: u64,
+    pub cause: Option<Box<CErr>>,
+}
+impl CErr {
+    fn new(kind: u8, v: u64, causes: &[u8]) -> CErr {
+        CErr { kind, v, cause: causes.split_first().map(|(k, rest)| Box::new(CErr::new(*k, v, rest))) }
+    }
+}
+impl std::fmt::Display for CErr {
+    fn fmt(&self, f: &mut std::fmt::Formatter<'_>) -> std::fmt::Result {
+        // the error's own kind only, like `IErr`: a wrapper that does not repeat its cause's text
+        write!(f, "ierr{}:{}", self.kind, self.v)
+    }
+}
+impl std::error::Error for CErr {
+    fn source(&self) -> Option<&(dyn std::error::Error + 'static)> {
+        self.cause.as_deref().map(|c| c as &(dyn std::error::Error + 'static))
+    }
+}
+
+/// request -> the cause chains of its scripted steps not yet consumed (popped in step with `Req::plan`)
+type Chains = Arc<Mutex<HashMap<usize, VecDeque<Vec<u8>>>>>;
+
+/// `inner=0:err2>1,3:ok,0:err1` -> [[1], [], []]
+pub fn causes_of(plan: &str) -> VecDeque<Vec<u8>> {
+    if plan.is_empty() {
+        return VecDeque::new();
+    }
+    plan.split(',')
+        .map(|part| {
+            let o = part.split_once(':').map(|x| x.1).unwrap_or(part);
+            match o.strip_prefix("err") {
+                Some(k) => k.split('>').skip(1).map(|x| x.parse().unwrap_or(0)).collect(),
+                None => Vec::new(),
+            }
+        })
+        .collect()
+}
+
+/// `Inner` with its errors mapped to `CErr`
+#[derive(Clone)]
+pub struct Chained {
+    inner: Inner,
+    chains: Chains,
+}
+pub struct ChainFut {
+    fut: InnerFut,
+    c: usize,
+    causes: Vec<u8>,
+}
+impl Future for ChainFut {
+    type Output = Result<Resp, CErr>;
+    fn poll(mut self: Pin<&mut Self>, cx: &mut Context<'_>) -> Poll<Self::Output> {
+        let r = match Pin::new(&mut self.fut).poll(cx) {
+            Poll::Pending => return Poll::Pending,
+            Poll::Ready(r) => r,
+        };
+        Poll::Ready(r.map_err(|e| {
+            if !self.causes.is_empty() {
+                let l: Vec<String> = self.causes.iter().map(|k| k.to_string()).collect();
+                log_raw(format!("#chain {} {} {}", self.c, e.v, l.join(">")));
+            }
+            CErr::new(e.kind, e.v, &self.causes)
+        }))
+    }
+}
+impl Service<Req> for Chained {
+    type Response = Resp;
+    type Error = CErr;
+    type Future = ChainFut;
+    fn poll_ready(&mut self, cx: &mut Context<'_>) -> Poll<Result<(), CErr>> {
+        self.inner.poll_ready(cx).map_err(|e| CErr::new(e.kind, e.v, &[]))
+    }
+    fn call(&mut self, req: Req) -> ChainFut {
+        let c = req.c;
+        let causes = self.chains.lock().unwrap().get_mut(&c).and_then(|q| q.pop_front()).unwrap_or_default();
+        ChainFut { fut: self.inner.call(req), c, causes }
+    }
 }
 
 struct Table(Vec<u64>);
@@ -90,11 +187,12 @@ impl Adapter {
         // `policy=default`: the layer exactly as `ReconnectLayer::default()` builds it (C14 end to end)
         let layer = if kv.str("policy", "exp") == "default" { ReconnectLayer::default() } else { ReconnectLayer::new(b.build()) };
         let state = layer.state().clone();
-        Adapter { svc: Some(layer.layer(Inner::new())), layer: Some(layer), state }
+        let chains: Chains = Default::default();
+        Adapter { svc: Some(layer.layer(Chained { inner: Inner::new(), chains: chains.clone() })), layer: Some(layer), state, chains }
     }
 }
 
-fn ready(svc: &mut ReconnectService<Inner>) -> bool {
+fn ready(svc: &mut ReconnectService<Chained>) -> bool {
     matches!(poll_ready_once(svc), std::task::Poll::Ready(Ok(())))
 }
 
@@ -105,7 +203,7 @@ pub fn render<E: std::error::Error + 'static>(r: Result<Resp, E>) -> String {
         Ok(x) => format!("ok:{}", x.v),
         Err(e) => {
             let s = e.to_string();
-            let inner = match e.source().and_then(|x| x.downcast_ref::<IErr>()) {
+            let inner = match e.source().and_then(|x| x.downcast_ref::<CErr>()) {
                 Some(ie) => format!("inner{}:{}", ie.kind, ie.v),
                 None => "inner?".to_string(),
             };
@@ -132,6 +230,7 @@ impl Mw for Adapter {
             return None;
         };
         let req = Req::new(c, kv);
+        self.chains.lock().unwrap().insert(c, causes_of(kv.get("inner").unwrap_or("0:ok")));
         let via = kv.str("via", "clone");
         // the handle the request is made through
         let fut = match via.as_str() {
@@ -152,7 +251,7 @@ impl Mw for Adapter {
                 readied.call(req)
             }
             "layer" => {
-                let mut svc = layer.layer(Inner::new());
+                let mut svc = layer.layer(Chained { inner: Inner::new(), chains: self.chains.clone() });
                 if !ready(&mut svc) {
                     log(format!("result {} notready", c));
                     return None;
@@ -172,7 +271,9 @@ impl Mw for Adapter {
     }
     fn requester(&self) -> Option<Requester> {
         let template = self.svc.as_ref()?.clone();
+        let chains = self.chains.clone();
         Some(std::rc::Rc::new(move |c: usize, kv: &Kv| {
+            chains.lock().unwrap().insert(c, causes_of(kv.get("inner").unwrap_or("0:ok")));
             let mut svc = template.clone();
             if !ready(&mut svc) {
                 log(format!("result {} notready", c));
